@@ -422,6 +422,10 @@ func (o *Oracle) matchStruct(src engine.Struct, S types.Type, ss *types.Struct, 
 	for i := 0; i < ts.NumFields(); i++ {
 		tf := ts.Field(i)
 		fpath := path + "." + tf.Name()
+		if tf.Name() == "_" {
+			// blank fields cannot be referred to: there is nothing to set
+			continue
+		}
 		fs, ps := o.fieldSpec(S, T, tf.Name())
 		if fs != nil && fs.Free {
 			continue
@@ -431,7 +435,16 @@ func (o *Oracle) matchStruct(src engine.Struct, S types.Type, ss *types.Struct, 
 			continue
 		}
 		if fs != nil && fs.Via != "" {
-			call := o.viaCall(fs.Via, src)
+			var recv engine.Value = src
+			if fs.Path != nil {
+				v, _, nilOn, ok := o.walkPath(src, S, fs.Path, false, tf.Name())
+				if !ok || nilOn {
+					o.fail(fpath, "oracle: getter behind a nil / bad path %v not modelled", fs.Path)
+					continue
+				}
+				recv = v
+			}
+			call := o.viaCall(fs.Via, recv)
 			if call == nil || call.Failed {
 				o.fail(fpath, "getter %s was not called on the source", fs.Via)
 				continue
